@@ -244,6 +244,95 @@ void from_float(sink& out, std::uint64_t salt)
     }
 }
 
+// heterogeneous operands: the four component types may all differ (each cross product has its own promoted type)
+template<class FA, class FB>
+void binary_het(sink& out, std::uint64_t salt)
+{
+    using AN = std::remove_cvref_t<decltype(std::declval<FA>().numerator)>;
+    using AD = std::remove_cvref_t<decltype(std::declval<FA>().denominator)>;
+    using BN = std::remove_cvref_t<decltype(std::declval<FB>().numerator)>;
+    using BD = std::remove_cvref_t<decltype(std::declval<FB>().denominator)>;
+    std::vector<FA> as;
+    std::vector<FB> bs;
+    {
+        auto n = comps<AN>(false, 1, salt);
+        auto d = comps<AD>(true, 1, salt + 1);
+        for (std::size_t k = 0; k < n.size(); ++k) {
+            as.push_back(FA(n[k], d[(k * 5 + 1) % d.size()]));
+            as.push_back(FA(n[k], d[(k * 3 + 2) % d.size()]));
+        }
+        for (AD x : {AD(1), AD(3), AD(-3)}) {
+            as.push_back(FA(AN(1), x));
+            as.push_back(FA(std::numeric_limits<AN>::max(), x));
+            as.push_back(FA(static_cast<AN>(std::numeric_limits<AN>::max() / 2 + 1), x));
+        }
+    }
+    {
+        auto n = comps<BN>(false, 1, salt + 2);
+        auto d = comps<BD>(true, 1, salt + 3);
+        for (std::size_t k = 0; k < n.size(); ++k) {
+            bs.push_back(FB(n[k], d[(k * 7 + 1) % d.size()]));
+            bs.push_back(FB(n[k], d[(k * 2 + 3) % d.size()]));
+        }
+        for (BD x : {BD(1), BD(3), BD(-3)}) {
+            bs.push_back(FB(BN(1), x));
+            bs.push_back(FB(std::numeric_limits<BN>::max(), x));
+            bs.push_back(FB(static_cast<BN>(std::numeric_limits<BN>::max() / 2 + 1), x));
+        }
+    }
+    int ids[4];
+    char const* names[4] = {"add", "sub", "mul", "div"};
+    using R0 = decltype(std::declval<FA>() + std::declval<FB>());
+    using R1 = decltype(std::declval<FA>() - std::declval<FB>());
+    using R2 = decltype(std::declval<FA>() * std::declval<FB>());
+    using R3 = decltype(std::declval<FA>() / std::declval<FB>());
+    std::string rts[4] = {fdesc_of<R0>(), fdesc_of<R1>(), fdesc_of<R2>(), fdesc_of<R3>()};
+    for (int k = 0; k < 4; ++k) {
+        ids[k] = add_inst(out, ev("Inst").str("kind", "FrBin").str("op", names[k]).raw("lt", fdesc_of<FA>()).raw("rt", fdesc_of<FB>()).raw("res_t", rts[k]));
+    }
+    int cid = add_inst(out, ev("Inst").str("kind", "FrCmp").str("op", "cmp").raw("lt", fdesc_of<FA>()).raw("rt", fdesc_of<FB>()).raw("res_t", desc<bool>()));
+    std::size_t sa = thorough() ? 1 : (as.size() > 60 ? as.size() / 60 : 1);
+    std::size_t sb = thorough() ? 1 : (bs.size() > 60 ? bs.size() / 60 : 1);
+    for (std::size_t ia = 0; ia < as.size(); ia += sa) {
+        for (std::size_t ib = 0; ib < bs.size(); ib += sb) {
+            FA const& a = as[ia];
+            FB const& b = bs[ib];
+            {
+                R0 r = fzero<R0>();
+                auto o = guarded([&] { r = a + b; });
+                out.put(ev("FrBin").num("i", ids[0]).raw("l", fraw(a)).raw("r", fraw(b)).raw("res", o == "ok" ? fraw(r) : "[[0],[0]]").str("out", o).s);
+            }
+            {
+                R1 r = fzero<R1>();
+                auto o = guarded([&] { r = a - b; });
+                out.put(ev("FrBin").num("i", ids[1]).raw("l", fraw(a)).raw("r", fraw(b)).raw("res", o == "ok" ? fraw(r) : "[[0],[0]]").str("out", o).s);
+            }
+            {
+                R2 r = fzero<R2>();
+                auto o = guarded([&] { r = a * b; });
+                out.put(ev("FrBin").num("i", ids[2]).raw("l", fraw(a)).raw("r", fraw(b)).raw("res", o == "ok" ? fraw(r) : "[[0],[0]]").str("out", o).s);
+            }
+            if (b.numerator != 0) {
+                R3 r = fzero<R3>();
+                auto o = guarded([&] { r = a / b; });
+                out.put(ev("FrBin").num("i", ids[3]).raw("l", fraw(a)).raw("r", fraw(b)).raw("res", o == "ok" ? fraw(r) : "[[0],[0]]").str("out", o).s);
+            }
+            bool c[6] = {};
+            auto o = guarded([&] {
+                c[0] = a < b;
+                c[1] = a <= b;
+                c[2] = a > b;
+                c[3] = a >= b;
+                c[4] = a == b;
+                c[5] = a != b;
+            });
+            char buf[32];
+            std::snprintf(buf, sizeof(buf), "[%d,%d,%d,%d,%d,%d]", c[0], c[1], c[2], c[3], c[4], c[5]);
+            out.put(ev("FrCmp").num("i", cid).raw("l", fraw(a)).raw("r", fraw(b)).raw("c", buf).str("out", o).s);
+        }
+    }
+}
+
 // class template argument deduction (C15's CTAD clause; the only deduction guides of the library are fraction's):
 // cnl::fraction{x} for floating-point x -- the deduced component type must hold every integral initializer of the
 // format exactly, and the result obeys C17's contract for that component type -- and for integer x (n/1 in the
@@ -329,6 +418,15 @@ int main(int argc, char** argv)
         unary<std::int16_t>(out, 12);
         unary<std::int32_t>(out, 13);
         unary<std::int64_t>(out, 14);
+        using std::int8_t, std::int16_t, std::int32_t, std::int64_t;
+        binary_het<cnl::fraction<int32_t, int32_t>, cnl::fraction<int64_t, int32_t>>(out, 41);
+        binary_het<cnl::fraction<int64_t, int32_t>, cnl::fraction<int32_t, int32_t>>(out, 42);
+        binary_het<cnl::fraction<int32_t, int64_t>, cnl::fraction<int32_t, int32_t>>(out, 43);
+        binary_het<cnl::fraction<int32_t, int32_t>, cnl::fraction<int32_t, int64_t>>(out, 44);
+        binary_het<cnl::fraction<int8_t, int16_t>, cnl::fraction<int64_t, int8_t>>(out, 45);
+        binary_het<cnl::fraction<int16_t, int64_t>, cnl::fraction<int32_t, int16_t>>(out, 46);
+        binary_het<cnl::fraction<int64_t, int64_t>, cnl::fraction<int32_t, int8_t>>(out, 47);
+        binary_het<cnl::fraction<int8_t, int8_t>, cnl::fraction<int64_t, int64_t>>(out, 48);
     }
     if (part == "all" || part == "float") {
         from_float<float, std::int16_t>(out, 21);
